@@ -321,7 +321,7 @@ def run(ctx):
     p.steps = [{"ew": None, "es": None, "path": "df"}, {"ew": None, "es": None, "path": "csv"}]
     plans.append(p)
     joint = set()
-    n_joint = 16 if quick else 600
+    n_joint = 6 if quick else 600
     while len(joint) < n_joint:
         joint.add((rng.randint(LO, HI), rng.randint(LO, HI)))
     for cw, cs in [(6, 6), (38, 15), (-1, -1), (15, 15), (14, 15), (6, 10), (10, 10), (39, 6), (38, 16), (5, 5)]:
